@@ -64,7 +64,7 @@ func finish(vs []float64, lim float64) []float64 {
 	return d
 }
 
-var poolModes = []string{"world", "cluster", "pole", "antimeridian", "world", "grid", "cluster", "polecap"}
+var poolModes = []string{"world", "cluster", "pole", "antimeridian", "oneside", "world", "grid", "cluster", "polecap", "onecap"}
 
 func drawPool(rt *rapid.T) pool {
 	mode := rapid.SampledFrom(poolModes).Draw(rt, "poolmode")
@@ -115,6 +115,26 @@ func drawPool(rt *rapid.T) pool {
 		xs = append(xs, cluster("xc", 180, nb/4, 9)...)
 		xs = append(xs, cluster("xd", -180, nb/4, 9)...)
 		ys = uni("y", -90, 90, nb)
+	case "oneside":
+		// the whole dataset on ONE side of the antimeridian, within 5 degrees of
+		// it: queries come from the other side with radii that reach across
+		sgn := float64(rapid.SampledFrom([]int{1, -1}).Draw(rt, "side"))
+		for _, v := range uni("xs", 175, 180, nb) {
+			xs = append(xs, sgn*v)
+		}
+		if rapid.Bool().Draw(rt, "touch180") {
+			xs = append(xs, sgn*180)
+		}
+		ys = uni("y", -60, 60, nb)
+	case "onecap":
+		// the whole dataset in one sector next to a pole: queries come from the
+		// opposite meridian, over the pole
+		sgn := float64(rapid.SampledFrom([]int{1, -1}).Draw(rt, "cap"))
+		c := rapid.Float64Range(-170, 170).Draw(rt, "capmeridian")
+		xs = uni("xc", c-10, c+10, nb)
+		for _, v := range uni("yc", 84, 90, nb) {
+			ys = append(ys, sgn*v)
+		}
 	case "grid":
 		for i := 0; i < nb; i++ {
 			xs = append(xs, float64(rapid.IntRange(-36, 36).Draw(rt, "gx"))*5)
@@ -251,6 +271,20 @@ func eligible(o geojson.Object) bool {
 // queryPoint draws where to search from: an object position, a pool position,
 // a pole, the antimeridian, or anywhere.
 func (p pool) queryPoint(rt *rapid.T) (lat, lon float64) {
+	if p.Mode == "oneside" && rapid.Bool().Draw(rt, "across") {
+		// from the other side of the antimeridian
+		x, y := p.xy(rt)
+		return y, clamp(-x+float64(rapid.IntRange(-9, 9).Draw(rt, "adx"))*0.1, 180)
+	}
+	if p.Mode == "onecap" && rapid.Bool().Draw(rt, "overpole") {
+		// from the opposite meridian, same cap
+		x, y := p.xy(rt)
+		ox := x + 180
+		if ox > 180 {
+			ox -= 360
+		}
+		return clamp(y-float64(rapid.IntRange(0, 40).Draw(rt, "ody"))*0.1*math.Copysign(1, y), 90), ox
+	}
 	switch rapid.IntRange(0, 7).Draw(rt, "qkind") {
 	case 0, 1, 2:
 		x, y := p.xy(rt)
